@@ -47,14 +47,15 @@ CLAIMED = {
         "Coq theorems on operator typing and on the precedence-climbing parser + tree-rendering spec monitor and type-matrix differential check"),
     "C03": entry(
         "the scanner accepts every source text: it returns tokens, never an error, never the model's Panic, never runs out of fuel (Hang) -- "
-        "including the progress lemma for number(), the loop that hung in the unrepaired crate (Props/C03.v, Proofs/LexTotal.v).",
+        "including the progress lemma for number(), the loop that hung in the unrepaired crate; the parser, for every token list and line number, "
+        "never answers with the outcome that stands for a Rust panic (Props/C03.v, Proofs/LexTotal.v, ParseSafe.v).",
         "all strings over the 25-symbol lexical alphabet up to length 3 (4 thorough), token soup and mutated lines through lex/relist/ast; "
         "sessions of arbitrary API calls; and, with the crate's debug assertions enabled, sessions that keep the terminal's calling discipline "
         "plus replies arriving on a nearly full stack -- all under a watchdog, panics caught.",
-        "PARTIAL: totality of the parser, code generator and VM is NOT proved; their freedom from panics and hangs is established only on the "
+        "PARTIAL: that the parser's fuel suffices, and totality of the code generator and VM, are NOT proved; their freedom from panics and hangs is established only on the "
         "generated inputs (the model marks every panic / divergence site of the crate as Panic / Hang, so a reachable one shows as a disagreement "
         "or a PANIC/HANG answer). Wall-clock behaviour is observed by a watchdog, not modelled.",
-        "Coq totality theorem for the scanner + exhaustive short-string and session fuzz under a watchdog (two build profiles)"),
+        "Coq totality theorem for the scanner and no-panic theorem for the parser + exhaustive short-string and session fuzz under a watchdog (two build profiles)"),
     "C04": entry(
         "a Hoare logic over the VM monad shows, for every state and opcode: through execute(), numbered lines, INPUT/INKEY$ replies and interrupts "
         "the dirty flag never falls and the stored lines never change without it; statements other than DELETE/RENUM/NEW never alter lines, flag or "
